@@ -273,6 +273,107 @@ func checkC09(replay string) {
 			}
 		}
 	})
+	// (c) keywords in the places the statement names explicitly: on local declarations (in function bodies, in method
+	// bodies, in function literals of package-level initialisers - also when the local type shares its name with a
+	// package-level type) and in trailing comments. No top-level declaration carries an annotation.
+	{
+		files := map[string]string{
+			"go.mod": "module nm\n\ngo 1.25\n",
+			"p/p.go": `package p
+
+// T is a plain type.
+type T struct{ F int }
+
+type U struct{ F int } // @constructor NewU
+
+var x = T{} // @immutable
+
+// NewT makes a T.
+func NewT() *T { return &T{} }
+
+func helper() {} // @testonly
+
+func use() {
+	t := T{}
+	t.F = 1
+	t.F++
+	_ = new(T)
+	var z T
+	_ = z
+	_ = U{}
+	helper()
+}
+
+func local() {
+	// @immutable
+	// @constructor NewT
+	// @testonly
+	// @packageonly
+	// @implements Missing
+	type T struct{ F int }
+	var t T
+	t.F = 2
+	// @testonly
+	h := func() {}
+	h()
+}
+
+type R struct{}
+
+func (r R) m() {
+	func() {
+		// @immutable
+		// @implements nosuch.Iface
+		type U struct{ F int }
+		var u U
+		u.F = 3
+	}()
+}
+
+var table = map[string]func(){
+	"k": func() {
+		// @immutable
+		// @constructor NewT
+		// @implements nosuch.Iface
+		// @packageonly
+		type T struct{ F int }
+		var t T
+		t.F = 4
+	},
+}
+
+var run = func() int {
+	// @testonly
+	// @immutable
+	type U struct{ F int }
+	return len([]U{{F: 1}})
+}()
+`,
+			"q/q.go": "package q\n\nimport \"nm/p\"\n\nfunc f() {\n\tt := p.NewT()\n\tt.F = 5\n\t_ = p.T{}\n\t_ = new(p.U)\n\tvar u p.U\n\tu.F++\n}\n",
+		}
+		root := ggrun.Scratch()
+		ggrun.WriteTree(root, files)
+		fs := map[string]string{}
+		for k, v := range files {
+			fs["module/"+k] = v
+		}
+		if ok, out := ggrun.CompileCheck(root); !ok {
+			base.Harness("C09 local-declaration module does not compile: %s", out)
+		}
+		for ci, cfg := range [][]string{{}, {"-config.scan-tests=true"}, {"-config.exclude-paths="}} {
+			res := ggrun.Run(ggrun.Opts{Dir: root, Args: append(append([]string{}, cfg...), "./...")})
+			r.Eval(1)
+			if bad, why := res.Crashed(false); bad {
+				r.Violate("crash/"+crashKey(res.Stderr), why+"\n"+head(res.Stderr, 2000), fs)
+				continue
+			}
+			r.Distinct(fmt.Sprintf("local-declarations/cfg%d", ci))
+			for _, d := range res.Diags {
+				r.Violate("unannotated/local-or-trailing-comment/"+d.Code, fmt.Sprintf("cfg %v: %s at %s:%d although no top-level declaration of the module is annotated (keywords appear only on local declarations and in trailing comments)", cfg, d.Code, d.File, d.Line), fs)
+			}
+		}
+		os.RemoveAll(root)
+	}
 	r.Obs("near_miss_programs_without_diagnostics", diagFree)
 	r.Obs("near_miss_shapes_rendered", gen.NearMissKinds)
 	r.Sample(map[string]any{"corpus_sample": headList(okPkgs, 8)})
